@@ -29,7 +29,10 @@ ASSUMPTIONS = [
 
 def ext_header(sb, cb, snct, cnct, spelling):
     parts = []
-    v = spelling % 6
+    v = spelling % 8
+    wrap = v
+    if v >= 6:
+        v = 0
     q = '"%d"' if v == 2 else '%d'
     eq = ' = ' if v == 3 else '='
     if sb != 15 or v in (1, 4):
@@ -43,7 +46,12 @@ def ext_header(sb, cb, snct, cnct, spelling):
     if v in (4, 5):
         parts.reverse()
     sep = ' ; ' if v == 3 else ('; ' if v != 1 else ';')
-    return sep.join(['permessage-deflate'] + parts)
+    out = sep.join(['permessage-deflate'] + parts)
+    if wrap == 6:
+        out = 'x-unknown-ext; a=1, ' + out          # an extension the client does not know, listed first
+    elif wrap == 7:
+        out = out + ', x-other; q="{}"'              # ... or last
+    return out
 
 
 def history(rnd, bits, long_filler=True):
@@ -79,7 +87,7 @@ def cases(tier, seed, i, n):
                     for snct in (False, True):
                         for cnct in (False, True):
                             k += 1
-                            cfg = dict(sb=sb, cb=cb, snct=snct, cnct=cnct, sp=(k + rep) % 6)
+                            cfg = dict(sb=sb, cb=cb, snct=snct, cnct=cnct, sp=(k + rep) % 8)
                             yield dict(kind='c2s', cfg=cfg, hseed=rnd.randrange(1 << 30))
                             styles = ['sync', 'full', 'sync_multi', 'bfinal']
                             if snct:
@@ -93,7 +101,7 @@ def cases(tier, seed, i, n):
         more = 1500 if tier == 'quick' else 80000
         for _ in range(more):
             cfg = dict(sb=rnd.randint(8, 15), cb=rnd.randint(8, 15), snct=rnd.random() < 0.5,
-                       cnct=rnd.random() < 0.5, sp=rnd.randrange(6))
+                       cnct=rnd.random() < 0.5, sp=rnd.randrange(8))
             if rnd.random() < 0.5:
                 yield dict(kind='c2s', cfg=cfg, hseed=rnd.randrange(1 << 30))
             else:
